@@ -95,9 +95,14 @@ func ZZ_C18_Head(mode int) {
 			return err
 		})
 	}
-	// the poller goroutine announces concurrently
+	// the poller goroutine announces concurrently; like httpPoll/wsListen it
+	// decodes every answer into the same buffer (eth.Bytes.UnmarshalJSON
+	// reuses the backing array), so the bytes it passed to update() are
+	// rewritten by its next decode
 	eg.Go(func() error {
-		c.lcache.update(9, make([]byte, 32))
+		buf := make([]byte, 32)
+		c.lcache.update(9, buf)
+		buf[0] = 1 // the next answer is being decoded into the same buffer
 		return nil
 	})
 	err := eg.Wait()
